@@ -28,7 +28,27 @@ the call: first try and retries). -/
 def Emits (sg : Signer) (dir : Dir) (u : Urls) (d : Data) (trace : List Flow.Ev) (tx : Tx) : Prop :=
   ∃ k au s r, Flow.Ev.exch k au s r ∈ trace ∧
     ∃ (a : Account) (site : Site) (nonces : List (List Char)),
-      siteOf sg dir u d a k = some site ∧ tx ∈ callTxs site nonces
+      (siteOf sg dir u d a k = some site ∨
+       (k = .accountProbe ∧ oldKeyProbeSite sg dir.keyChange a = some site)) ∧
+      tx ∈ callTxs site nonces
+
+/-- `url_is_post_url` for the query of the account signed by the recorded key (the first request of
+a key roll-over since 1fb1c1a): sent to the account URL; header `url` = that URL, `kid` = that URL;
+no inner object; the round's nonce. -/
+theorem url_is_post_url_old_key_probe (sg : Signer) (dk : List Char) (a : Account) (site : Site)
+    (nonces : List (List Char)) (tx : Tx)
+    (hs : oldKeyProbeSite sg dk a = some site) (ht : tx ∈ callTxs site nonces) :
+    tx.dest = site.url ∧ tx.body.hdr.url = tx.dest ∧ tx.inners = [] ∧
+    tx.body.hdr.kid = some site.url ∧ tx.body.hdr.jwk = none ∧ tx.body.payload = [] ∧
+    ∃ n ∈ nonces, tx.body.hdr.nonce = some n := by
+  obtain ⟨n, hn, hb, hd, hi⟩ := mem_callTxs ht
+  obtain ⟨hbind, hinn, p, _, hu, _, hsig⟩ := oldKeyProbeSite_spec hs
+  obtain ⟨h1, h2, h3, _⟩ := hbind n site.url tx.body hb
+  obtain ⟨h5, h6, _⟩ := hsig n site.url tx.body hb
+  refine ⟨hd, by rw [h1, hd], by rw [hi, hinn], by rw [h5, hu], ?_, h6, n, hn, h2⟩
+  cases hj : tx.body.hdr.jwk with
+  | none => rfl
+  | some x => rw [hj] at h3; cases h3
 
 /-- **`url_is_post_url`, per call.**  For every request kind and every transmission of the call
 (first try or retry): the request is sent to the call's URL; the `url` member of its protected
@@ -58,9 +78,16 @@ theorem url_is_post_url_attempt (sg : Signer) (dir : Dir) (u : Urls) (d : Data) 
     (Emits sg dir u d (Flow.attempt v cfg w).2.1 tx ∨
      Emits sg dir u d (Flow.synchronize v w).2.trace tx) →
     tx.body.hdr.url = tx.dest ∧ ∀ i ∈ tx.inners, i.hdr.url = tx.dest := by
-  rintro (⟨k, _, _, _, _, a, site, nonces, hs, ht⟩ | ⟨k, _, _, _, _, a, site, nonces, hs, ht⟩) <;>
+  rintro (⟨k, _, _, _, _, a, site, nonces, hs | ⟨_, hs⟩, ht⟩ |
+    ⟨k, _, _, _, _, a, site, nonces, hs | ⟨_, hs⟩, ht⟩)
   · obtain ⟨_, h2, h3, _⟩ := url_is_post_url sg dir u d a k site nonces tx hs ht
     exact ⟨h2, h3⟩
+  · obtain ⟨_, h2, h3, _⟩ := url_is_post_url_old_key_probe sg dir.keyChange a site nonces tx hs ht
+    exact ⟨h2, by rw [h3]; simp⟩
+  · obtain ⟨_, h2, h3, _⟩ := url_is_post_url sg dir u d a k site nonces tx hs ht
+    exact ⟨h2, h3⟩
+  · obtain ⟨_, h2, h3, _⟩ := url_is_post_url_old_key_probe sg dir.keyChange a site nonces tx hs ht
+    exact ⟨h2, by rw [h3]; simp⟩
 
 /-- The same on a trace of `Model/Http.lean`: all transmissions of ONE call of `Http.post` (any
 retry bound, nonce mode, endpoint state, answer script) are the call site's rounds, one per
@@ -94,6 +121,7 @@ def expectedUrl (dir : Dir) (u : Urls) (a : Account) : Flow.ReqKind → Option (
   | .orderPoll => some u.order
   | .finalize => some u.finalize
   | .certDownload => some u.cert
+  | .accountProbe => a.ep.map (·.accountUrl)
 
 /-- Every call site posts to the URL the protocol step names: the directory's newAccount /
 newOrder / keyChange URL, the stored account URL, the authorization / challenge / order / finalize /
@@ -126,6 +154,11 @@ theorem site_url_table (sg : Signer) (dir : Dir) (u : Urls) (d : Data) (a : Acco
   | orderPoll => cases hs; rfl
   | finalize => cases hs; rfl
   | certDownload => cases hs; rfl
+  | accountProbe =>
+    simp only [siteOf] at hs
+    cases hep : a.ep with
+    | none => rw [hep] at hs; cases hs
+    | some ep => rw [hep] at hs; cases hs; simp [expectedUrl, hep]
 
 /-- The text on the wire: the serialised protected header of every transmission ends with
 `,"url":"<the destination, JSON-escaped>"}` (`C15.header_members` for the rest of the text). -/
@@ -200,6 +233,11 @@ theorem header_members_by_kind (sg : Signer) (dir : Dir) (u : Urls) (d : Data) (
     | orderPoll => cases hs; cases hm
     | finalize => cases hs; cases hm
     | certDownload => cases hs; cases hm
+    | accountProbe =>
+      simp only [siteOf] at hs
+      cases hep : a.ep with
+      | none => rw [hep] at hs; cases hs
+      | some ep => rw [hep] at hs; cases hs; cases hm
 
 /-! ## C04.3 — the key-change object (RFC 8555 §7.3.5) -/
 
@@ -407,15 +445,17 @@ example : ((siteOf sgEx dirEx urlsEx dataEx acctEx (.challengeReady 5)).map fun 
 example : ((siteOf sgEx dirEx urlsEx dataEx { acctEx with ep := none } .finalize).map fun s =>
       (callTxs s [nonce1]).length) = some 0 := by decide +kernel
 
-/-- `Emits` is inhabited for a real attempt trace: the CA refuses the roll-over, the attempt's trace
-is `[directory, keyChange signed by 100]`, and the first transmission of that key change is one
-of the POSTs the theorem speaks about. -/
+/-- `Emits` is inhabited for a real attempt trace: the CA answers the check of the account and
+refuses the roll-over, the attempt's trace is `[directory, account query signed by 100, keyChange
+signed by 100]`, and the first transmission of that key change is one of the POSTs the theorem
+speaks about. -/
 def wEx : Flow.World :=
-  ⟨[.ok (.directory true), .acmeErr .other], [], [], ⟨none, none⟩, 0, true,
+  ⟨[.ok (.directory true), .ok .undecodable, .acmeErr .other], [], [], ⟨none, none⟩, 0, true,
    ⟨true, true, true, true, 101, 100, 100, true⟩, []⟩
 
 example : (Flow.attempt .current C03.cfg1 wEx).2.1 =
     [.exch .directory .none 0 (.ok (.directory true)),
+     .exch .accountProbe .kid 100 (.ok .undecodable),
      .exch .keyChange .kid 100 (.acmeErr .other)] := by decide +kernel
 
 example : ∃ tx, Emits sgEx dirEx urlsEx dataEx (Flow.attempt .current C03.cfg1 wEx).2.1 tx ∧
@@ -430,7 +470,7 @@ example : ∃ tx, Emits sgEx dirEx urlsEx dataEx (Flow.attempt .current C03.cfg1
     simp [outerBuilder, encodeKid, getJwsData, sgEx]
   obtain ⟨o, ho'⟩ := Option.isSome_iff_exists.mp ho
   refine ⟨⟨p.postUrl, o, [p.inner]⟩, ⟨.keyChange, .kid, 100, .acmeErr .other, by decide +kernel,
-    acctEx, _, [nonce1], hsite, ?_⟩, hurl⟩
+    acctEx, _, [nonce1], .inl hsite, ?_⟩, hurl⟩
   simp only [callTxs, roundTx, List.filterMap_cons, List.filterMap_nil, ho', List.mem_singleton]
 
 end AcmedVerif.Props.C04Bind
